@@ -313,6 +313,7 @@ def _peel(n):
 def check(ctx):
     p = ctx.prog()
     pk = p.enum('engine::PieceKind')
+    sq_ = p.enum('engine::Square')
     swc = p.fn(POS + '::san_without_check')
     san = p.fn(POS + '::san')
     ps = p.fn(POS + '::parse_san')
@@ -473,10 +474,40 @@ def check(ctx):
               ('"="', {('in', 'promotion(move)', ANYK)}, None),
               ('promotion_str[promotion(move)]', {('in', 'promotion(move)', ANYK)}, None)]
     found_app = []
+    form_b = False
     for n in swc.all_nodes():
         if n['k'] == 'CXXOperatorCallExpr' and n.get('op') == '+=' and nsw.s(kids(n)[1]) == 's':
             fa = set(a for a in nsw.facts(guard_facts(swc, n)) if not (a[0] == 'in' and a[1] == 'castling(move)'))
             found_app.append((nsw.s(kids(n)[2]), fa, n))
+    # the capture condition may be spelt without the accumulated bitboard (two tests joined by ||): then it is decided as a
+    # table over {target holds an enemy piece, the mover is a pawn, the target is the e.p. square}
+    xs_ = [(v, fa, n) for v, fa, n in found_app if v == '"x"']
+    if len(xs_) == 1 and CAP not in xs_[0][1]:
+        from rules.norm import Norm as _Nx, cond_value as _cvx, Unknown as _Ux
+        from rules.common import all_guards as _agx
+        TE = '(pieces(!(_current_side))&square_bb(to(move)))'
+        conds_ = [(c_, t_) for c_, t_ in _agx(swc, xs_[0][2]) if not any((x.get('callee') or {}).get('n') == 'engine::castling' for x in walk(c_))]
+        bad_x = None
+        for E_ in (0, 1):
+            for P_ in (0, 1):
+                for ep_ in (sq_['NO_SQUARE'], 20):
+                    val = {'moved_piece': pk['PAWN'] if P_ else pk['KNIGHT'], 'make_piece_kind(piece_at(from(move)))': pk['PAWN'] if P_ else pk['KNIGHT'],
+                           'to(move)': 20, '_enpassant_square': ep_, 'enpassant_square()': ep_, TE: E_, ('truthy', TE, True): bool(E_)}
+                    nx = _Nx(swc, keep=('moved_piece',))
+                    try:
+                        got = all(_cvx(nx, c_, val) == t_ for c_, t_ in conds_)
+                    except _Ux as u:
+                        raise AnalysisBroken('san_without_check: the capture mark depends on `%s`, which the rule does not know' % str(u)[:140])
+                    want = bool(E_) or (bool(P_) and ep_ == 20)
+                    if got != want and bad_x is None:
+                        bad_x = 'enemy piece on target=%s, pawn moves=%s, e.p. square %s: `x` %s' % (
+                            bool(E_), bool(P_), 'is the target' if ep_ == 20 else 'not set', 'written' if got else 'not written')
+        form_b = bad_x is None
+        if bad_x is not None:
+            ctx.ob('C17.R1.printer-capture', 'san_without_check', False,
+                   'a capture is a move onto an enemy piece or, for a pawn, onto the e.p. square when there is one — ' + bad_x, site=swc.loc())
+        # in this spelling the pawn's file is written under the same capture condition: give both appends the canonical fact
+        found_app = [(v, (fa | {CAP}) if (v == '"x"' or (('eq', '""', 's') in fa)) and form_b else fa, n) for v, fa, n in found_app]
     bad_app = None
     if [v for v, _fa, _n in found_app] != [v for v, _w, _alt in expect]:
         known_vals = {v for v, _w, _alt in expect}
@@ -490,14 +521,18 @@ def check(ctx):
     ctx.ob('C17.R1.printer-fields', 'san_without_check', bad_app is None,
            'the printer writes piece letter (not for pawns), file and rank only when needed, the capturing pawn\'s file, `x` for a capture, '
            'the target square and `=` + letter for a promotion, in this order%s' % ('' if bad_app is None else ' — ' + bad_app), site=swc.loc())
-    cbd = [n for n in swc.all_nodes() if n['k'] == 'VarDecl' and n.get('name') == 'capturing_bb' and kids(n)]
-    cbu = [n for n in swc.all_nodes() if n['k'] == 'CompoundAssignOperator' and nsw.s(kids(n)[0]) == 'capturing_bb']
+    if form_b:
+        ctx.ob('C17.R1.printer-capture', 'san_without_check', True,
+               'a capture is a move onto an enemy piece or, for a pawn, onto the e.p. square when there is one (decided as a table)', site=swc.loc())
+    cbd = [] if form_b else [n for n in swc.all_nodes() if n['k'] == 'VarDecl' and n.get('name') == 'capturing_bb' and kids(n)]
+    cbu = [] if form_b else [n for n in swc.all_nodes() if n['k'] == 'CompoundAssignOperator' and nsw.s(kids(n)[0]) == 'capturing_bb']
     okc = len(cbd) == 1 and nsw.s(kids(cbd[0])[0]) in ('pieces(!(_current_side))',) and len(cbu) == 1 and cbu[0].get('op') == '|=' and \
         nsw.s(kids(cbu[0])[1]) == 'square_bb(_enpassant_square)' and \
         set(a for a in nsw.facts(guard_facts(swc, cbu[0])) if not (a[0] == 'in' and a[1] == 'castling(move)')) == \
         {('in', '_enpassant_square', frozenset(range(64))), ('in', 'moved_piece', frozenset({pk['PAWN']}))}
-    ctx.ob('C17.R1.printer-capture', 'san_without_check', bool(okc),
-           'a capture is a move onto an enemy piece or, for a pawn, onto the e.p. square when there is one', site=swc.loc())
+    if not form_b:
+        ctx.ob('C17.R1.printer-capture', 'san_without_check', bool(okc),
+               'a capture is a move onto an enemy piece or, for a pawn, onto the e.p. square when there is one', site=swc.loc())
 
     # disambiguation: what is printed about the origin must single the mover out among the candidates
     base_attrs = {'kind', 'target', 'promotion'}
@@ -528,25 +563,52 @@ def check(ctx):
            % ('' if not bad else ': ' + '; '.join(r[1] for r in bad)), site=bad[0][4] if bad else ps.loc())
 
     # ---- R3 criteria agreement and letter tables -----------------------------------------------------------------
+    # the candidate test of the parser, wherever it is written (the condition inside the candidate loop, or a predicate handed to
+    # count_if/find_if), as a decision table: a move matches exactly when it is not castling, its piece kind, target square and
+    # (when written) origin file, origin rank and promotion piece agree with the string
+    from rules.norm import Norm as _Nc, cond_value as _cvc, Unknown as _Uc
+    from rules.common import all_guards as _agc
     loop_if = None
+    pred = None            # (function, [(condition node, required truth)])
     for n in ps.all_nodes():
-        if n['k'] == 'IfStmt' and any(short(x.get('ref', {}).get('n', '')) == 'matching_move_count' for x in walk(kids(n)[1])) \
-                and any(x.get('callee', {}).get('n') == 'engine::from' for x in walk(kids(n)[0])):
+        if n['k'] == 'IfStmt' and any(x.get('callee', {}).get('n') == 'engine::from' for x in walk(kids(n)[0])) and \
+                any((x.get('ref') or {}).get('n') == 'to_square' for x in walk(kids(n)[0])):
             loop_if = n
-    crit = set()
-    if loop_if is not None:
-        c = canon(ps, kids(loop_if)[0], inline=False).replace(' ', '')
-        for key, pat in (('kind', 'make_piece_kind(piece_at(from(move)))==moved_piece'), ('file', 'file(from(move))=='),
-                         ('rank', 'rank(from(move))=='), ('target', 'to(move)==to_square'), ('promotion', 'promotion(move)==')):
-            if pat in c:
-                crit.add(key)
-        c2 = c.replace('.operatorbool()', '')
-        opt_ok = '(!(from_file)||' in c2 and '(!(from_rank)||' in c2 and '(!(promotion_piece_kind)||' in c2
-    else:
-        opt_ok = False
-    ctx.ob('C17.R3.parser-criteria', 'parse_san', crit == {'kind', 'file', 'rank', 'target', 'promotion'} and opt_ok,
-           'parse_san matches candidates by piece kind, optional file, optional rank, target square and optional promotion (%s)' % sorted(crit),
-           site=ps.loc(loop_if) if loop_if else ps.loc())
+            pred = (ps, [(c_, t_) for c_, t_ in _agc(ps, n) if any((x.get('callee') or {}).get('n') == 'engine::castling' for x in walk(c_))] + [(kids(n)[0], True)])
+    if pred is None:
+        for g_ in [p.funcs[n['lambda']] for n in ps.all_nodes() if n.get('lambda') and n['lambda'] in p.funcs]:
+            rets_ = [r_ for r_ in g_.all_nodes() if r_['k'] == 'ReturnStmt' and kids(r_)]
+            if len(rets_) == 1 and any((x.get('callee') or {}).get('n') == 'engine::from' for x in walk(rets_[0])) and \
+                    any((x.get('ref') or {}).get('n') == 'to_square' for x in walk(rets_[0])):
+                pred = (g_, [(kids(rets_[0])[0], True)])
+    if pred is None:
+        raise AnalysisBroken('parse_san: the test that matches a legal move against the parsed fields was not found')
+    pf, pconds = pred
+    import itertools as _it
+    bad_c = None
+    for cz, kd, hf, fe, hr, re_, te, hp, pe in _it.product((False, True), repeat=9):
+        val = {'castling(move)': 5 if cz else 0, 'make_piece_kind(piece_at(from(move)))': 2, 'moved_piece': 2 if kd else 3,
+               'from_file.operator bool()': int(hf), 'from_file.has_value()': int(hf), 'file(from(move))': 3, 'from_file.value()': 3 if fe else 4,
+               '*(from_file)': 3 if fe else 4,
+               'from_rank.operator bool()': int(hr), 'from_rank.has_value()': int(hr), 'rank(from(move))': 1, 'from_rank.value()': 1 if re_ else 2,
+               '*(from_rank)': 1 if re_ else 2,
+               'to(move)': 20, 'to_square': 20 if te else 21,
+               'promotion_piece_kind.operator bool()': int(hp), 'promotion_piece_kind.has_value()': int(hp),
+               ('eq',) + tuple(sorted(['promotion(move)', 'promotion_piece_kind'])): pe,
+               ('eq',) + tuple(sorted(['promotion(move)', 'promotion_piece_kind.value()'])): pe,
+               ('eq',) + tuple(sorted(['promotion(move)', '*(promotion_piece_kind)'])): pe}
+        nmc = _Nc(pf, keep=('move', 'm', 'moved_piece', 'to_square', 'from_file', 'from_rank', 'promotion_piece_kind'))
+        try:
+            got = all(_cvc(nmc, c_, val) == t_ for c_, t_ in pconds)
+        except _Uc as u:
+            raise AnalysisBroken('parse_san: the candidate test depends on `%s`, which the table does not know' % str(u)[:120])
+        want = (not cz) and kd and (not hf or fe) and (not hr or re_) and te and (not hp or pe)
+        if got != want and bad_c is None:
+            bad_c = 'castling=%s kind=%s file(written=%s,equal=%s) rank(written=%s,equal=%s) target=%s promotion(written=%s,equal=%s): %s' % (
+                cz, kd, hf, fe, hr, re_, te, hp, pe, 'matches' if got else 'does not match')
+    ctx.ob('C17.R3.parser-criteria', 'parse_san', bad_c is None,
+           'parse_san matches candidates by piece kind, optional file, optional rank, target square and optional promotion, and never '
+           'a castling entry%s' % ('' if bad_c is None else ' — ' + bad_c), site=pf.loc())
     # every way parse_san gives up is one the inclusion argument above accounts for: no regex match, an impossible promotion
     # piece, not exactly one candidate. A further rejection could refuse strings the printer produces.
     from rules.norm import Norm as _N
@@ -560,7 +622,8 @@ def check(ctx):
         inner = (nps.show_cond(gf[0][0]), gf[0][1]) if gf else ('', True)
         known = ('regex_match(' in inner[0] and not inner[1]) or \
                 ('promotion_piece_kind' in inner[0] and inner[1] and 'matching' not in inner[0]) or \
-                (inner[0].replace(' ', '') in ('(nematching_move_count1)',) and inner[1])
+                (inner[0].replace(' ', '') in ('(nematching_move_count1)',) and inner[1]) or \
+                (re.fullmatch(r'\(ne count_if\(begin,end,.*\) 1\)', inner[0]) is not None and inner[1])
         if not known:
             raise AnalysisBroken('parse_san gives up at %s under `%s` (%s): a rejection the inclusion argument does not cover'
                                  % (ps.loc(n), inner[0], inner[1]))
@@ -611,33 +674,53 @@ def check(ctx):
     ctx.ob('C17.R1.promotion-pieces', 'parse_san', bool(rej) and bad_p is None,
            'a written promotion piece is refused exactly when it is a pawn or a king; a move without promotion is never refused here%s'
            % ('' if bad_p is None else ' — ' + bad_p), site=ps.loc(rej[0]) if rej else ps.loc())
-    # (c) every generated move is looked at, (d) the answer is the single candidate
-    loops_ = [n for n in ps.all_nodes() if n['k'] == 'ForStmt' and any((x.get('ref') or {}).get('n') == 'matching_move_count' for x in walk(n))]
-    okl = len(loops_) == 1
-    if okl:
-        lp_ = loops_[0]
+    # second spelling of (c)/(d): the standard algorithms over the whole generated list with the candidate test as predicate
+    cnt_calls = [n for n, _c, nm_ in ps.calls() if nm_.split('<')[0] == 'std::count_if']
+    fnd_calls = [n for n, _c, nm_ in ps.calls() if nm_.split('<')[0] == 'std::find_if']
+    if cnt_calls or fnd_calls:
         nk_ = _N(ps, inline=False)
-        iv_ = [x for x in walk(lp_['ch'][0]) if x['k'] == 'VarDecl'] if lp_['ch'][0] else []
-        inc_ = strip_casts(lp_['ch'][3]) if lp_['ch'][3] else None
-        okl = len(iv_) == 1 and kids(iv_[0]) and nk_.s(kids(iv_[0])[0]) == 'begin' and lp_['ch'][2] is not None and \
-            nk_.conj(lp_['ch'][2]) == frozenset({('ne',) + tuple(sorted([iv_[0]['name'], 'end']))}) and \
-            inc_ is not None and inc_['k'] == 'UnaryOperator' and inc_.get('op') == '++'
         beg = [n for n in ps.all_nodes() if n['k'] == 'VarDecl' and n.get('name') == 'end' and kids(n)]
-        okl = okl and len(beg) == 1 and nk_.s(kids(beg[0])[0]).startswith('generate_moves(*(this),') and ',begin)' in nk_.s(kids(beg[0])[0])
-    ctx.ob('C17.R3.candidate-walk', 'parse_san', bool(okl),
-           'the candidate loop visits every move of the generated list (from begin up to the end generate_moves returned)', site=ps.loc())
-    asg = [n for n in ps.all_nodes() if n['k'] == 'BinaryOperator' and n.get('op') == '=' and
-           (strip_casts(kids(n)[0]).get('ref') or {}).get('n') == 'matching_move']
-    incs = [n for n in ps.all_nodes() if n['k'] == 'UnaryOperator' and n.get('op') == '++' and
-            (strip_casts(kids(n)[0]).get('ref') or {}).get('n') == 'matching_move_count']
-    oka = len(asg) == 1 and len(incs) == 1 and okl and _N(ps, inline=False, keep=('move',)).s(kids(asg[0])[1]) in ('move', '*(it)') and \
-        ps.parent(asg[0]) is not None and ps.cfg.position(asg[0]) is not None and ps.cfg.position(incs[0]) is not None and \
-        ps.cfg.position(asg[0])[0] == ps.cfg.position(incs[0])[0]
-    ctx.ob('C17.R3.candidate-kept', 'parse_san', bool(oka),
-           'a matching candidate is remembered and counted in the same step', site=ps.loc(asg[0]) if asg else ps.loc())
-    cnt = [n for n in ps.all_nodes() if n['k'] == 'IfStmt' and canon(ps, kids(n)[0], inline=False).replace(' ', '') == '(matching_move_count!=1)']
-    ctx.ob('C17.R3.unique-match', 'parse_san', len(cnt) == 1,
-           'parse_san answers only when exactly one legal move matches', site=ps.loc())
+        gen_ok = len(beg) == 1 and nk_.s(kids(beg[0])[0]).startswith('generate_moves(*(this),') and ',begin)' in nk_.s(kids(beg[0])[0])
+        args_c = [nk_.s(a_) for a_ in kids(cnt_calls[0])[1:]] if len(cnt_calls) == 1 else None
+        args_f = [nk_.s(a_) for a_ in kids(fnd_calls[0])[1:]] if len(fnd_calls) == 1 else None
+        okw = gen_ok and args_c is not None and args_c[:2] == ['begin', 'end'] and args_f is not None and args_f == args_c
+        ctx.ob('C17.R3.candidate-walk', 'parse_san', bool(okw),
+               'the candidates are counted over the whole generated list (count_if from begin to the end generate_moves returned)', site=ps.loc())
+        rets_ = [r_ for r_ in ps.all_nodes() if r_['k'] == 'ReturnStmt' and kids(r_) and any(x is fnd_calls[0] for x in walk(r_))] if fnd_calls else []
+        okk = okw and len(rets_) == 1 and nk_.s(kids(rets_[0])[0]).startswith('*(find_if(')
+        ctx.ob('C17.R3.candidate-kept', 'parse_san', bool(okk),
+               'the answer is the candidate found by the same test over the same list', site=ps.loc())
+        g_ = [(nps.show_cond(c_), t_) for r_ in rets_ for c_, t_ in guard_facts(ps, r_)]
+        oku = any(re.fullmatch(r'\(ne count_if\(begin,end,.*\) 1\)', c_) and not t_ for c_, t_ in g_)
+        ctx.ob('C17.R3.unique-match', 'parse_san', bool(oku), 'parse_san answers only when exactly one legal move matches', site=ps.loc())
+    else:
+        # (c) every generated move is looked at, (d) the answer is the single candidate
+        loops_ = [n for n in ps.all_nodes() if n['k'] == 'ForStmt' and any((x.get('ref') or {}).get('n') == 'matching_move_count' for x in walk(n))]
+        okl = len(loops_) == 1
+        if okl:
+            lp_ = loops_[0]
+            nk_ = _N(ps, inline=False)
+            iv_ = [x for x in walk(lp_['ch'][0]) if x['k'] == 'VarDecl'] if lp_['ch'][0] else []
+            inc_ = strip_casts(lp_['ch'][3]) if lp_['ch'][3] else None
+            okl = len(iv_) == 1 and kids(iv_[0]) and nk_.s(kids(iv_[0])[0]) == 'begin' and lp_['ch'][2] is not None and \
+                nk_.conj(lp_['ch'][2]) == frozenset({('ne',) + tuple(sorted([iv_[0]['name'], 'end']))}) and \
+                inc_ is not None and inc_['k'] == 'UnaryOperator' and inc_.get('op') == '++'
+            beg = [n for n in ps.all_nodes() if n['k'] == 'VarDecl' and n.get('name') == 'end' and kids(n)]
+            okl = okl and len(beg) == 1 and nk_.s(kids(beg[0])[0]).startswith('generate_moves(*(this),') and ',begin)' in nk_.s(kids(beg[0])[0])
+        ctx.ob('C17.R3.candidate-walk', 'parse_san', bool(okl),
+               'the candidate loop visits every move of the generated list (from begin up to the end generate_moves returned)', site=ps.loc())
+        asg = [n for n in ps.all_nodes() if n['k'] == 'BinaryOperator' and n.get('op') == '=' and
+               (strip_casts(kids(n)[0]).get('ref') or {}).get('n') == 'matching_move']
+        incs = [n for n in ps.all_nodes() if n['k'] == 'UnaryOperator' and n.get('op') == '++' and
+                (strip_casts(kids(n)[0]).get('ref') or {}).get('n') == 'matching_move_count']
+        oka = len(asg) == 1 and len(incs) == 1 and okl and _N(ps, inline=False, keep=('move',)).s(kids(asg[0])[1]) in ('move', '*(it)') and \
+            ps.parent(asg[0]) is not None and ps.cfg.position(asg[0]) is not None and ps.cfg.position(incs[0]) is not None and \
+            ps.cfg.position(asg[0])[0] == ps.cfg.position(incs[0])[0]
+        ctx.ob('C17.R3.candidate-kept', 'parse_san', bool(oka),
+               'a matching candidate is remembered and counted in the same step', site=ps.loc(asg[0]) if asg else ps.loc())
+        cnt = [n for n in ps.all_nodes() if n['k'] == 'IfStmt' and canon(ps, kids(n)[0], inline=False).replace(' ', '') == '(matching_move_count!=1)']
+        ctx.ob('C17.R3.unique-match', 'parse_san', len(cnt) == 1,
+               'parse_san answers only when exactly one legal move matches', site=ps.loc())
     lam = [p.funcs[n['lambda']] for n in swc.all_nodes() if n.get('lambda') and n['lambda'] in p.funcs]
     pc = set()
     for g in lam:
